@@ -55,10 +55,18 @@ func c13Want(kind uint, t *c13Tree, out string) bool {
 // (text, walk, iterator walk, JSON) on a chosen tree. After every operation the result equals the reference
 // rendering of that tree's current model (a function of shape and names only) and repeating the operation
 // repeats the result.
+// c13Name: a single path element, or (verifN() >= 10) the empty string: NewRoot("") / Add("") are legal calls.
+func c13Name() string {
+	if verifN() >= 10 && verifFlag("emptyName") {
+		return ""
+	}
+	return verifName("name")
+}
+
 func VerifC13() {
-	n := verifN()
+	n := verifN() % 10
 	t0 := &c13Tree{}
-	t0.root = &mNode{name: verifText("name")}
+	t0.root = &mNode{name: c13Name()}
 	t0.root.real = NewRoot(t0.root.name)
 	t0.nodes = []*mNode{t0.root}
 	trees := []*c13Tree{t0}
@@ -71,7 +79,7 @@ func VerifC13() {
 		case 0: // Add
 			t := trees[verifChoose("tree", 0, uint(len(trees)-1))]
 			p := t.nodes[verifChoose("parent", 0, uint(len(t.nodes)-1))]
-			if c, created := mAdd(p, verifText("name"), "C13.add"); created {
+			if c, created := mAdd(p, c13Name(), "C13.add"); created {
 				t.nodes = append(t.nodes, c)
 			}
 			hist += "A"
@@ -93,14 +101,14 @@ func VerifC13() {
 				verifAssume(false)
 			}
 			t1 := &c13Tree{}
-			t1.root = &mNode{name: verifText("name")}
+			t1.root = &mNode{name: c13Name()}
 			t1.root.real = NewRoot(t1.root.name)
 			t1.nodes = []*mNode{t1.root}
 			trees = append(trees, t1)
 			hist += "N"
 		case 3: // unrelated From-Markdown call in between
 			w := newVerifWriter()
-			a, b := verifText("name"), verifText("name")
+			a, b := verifName("name"), verifName("name")
 			err := OutputFromMarkdown(w, &verifReader{lines: []string{verifRow("", 0, 0, a), verifRow("", 0, 1, b)}})
 			verifAssert(err == nil && w.out == a+"\n"+dLD+" "+b+"\n", "C13.md")
 			hist += "M"
